@@ -296,6 +296,7 @@ class ProgGen:
         self.steps: list[dict] = []
         self.next_t = 0
         self.next_d = 0
+        self.subclass: set[int] = set()      # slots holding Point/Line/Plane/Transformation/Conic instances
         self.hist: dict[int, list] = {}      # diagram -> construction ops [["n", t] | ["e", s, t]]
         self.variant: dict[int, int] = {}    # tensor slot -> slot of a same-shape, same-type-count, other-layout twin
 
@@ -325,12 +326,46 @@ class ProgGen:
             nn, p = rng.choice([(2, 1), (3, 1), (2, 2), (3, 2), (n, 1)])
             self.recipes.append({"slot": s, "k": "delta", "a": [nn, p]})
             self.tensors[s] = MTensor(W.delta_ref(nn, p), range(p), range(p, 2 * p), int8=(p == nn and p > 1))
+        # nodes that are instances of the geometric subclasses (this is what the library itself feeds into diagrams)
+        if rng.random() < 0.4:
+            for _ in range(rng.randint(1, 3)):
+                kind = rng.choice(["point", "line", "plane", "transf", "conic", "dualconic"])
+                s = self.new_t()
+                if kind == "point":
+                    d_ = rng.choice([2, 3])
+                    v = [rng.randint(-3, 3) for _ in range(d_)] + [1]
+                    self.recipes.append({"slot": s, "k": "point", "a": [v], "kw": {"how": "hom", "dt": "i"}})
+                    self.tensors[s] = MTensor(np.array(v, dtype=np.int64), [0], [])
+                elif kind == "line":
+                    v = [rng.randint(-3, 3) or 1 for _ in range(3)]
+                    self.recipes.append({"slot": s, "k": "line", "a": [v], "kw": {"dt": "i"}})
+                    self.tensors[s] = MTensor(np.array(v, dtype=np.int64), [], [0])
+                elif kind == "plane":
+                    v = [rng.randint(-3, 3) or 1 for _ in range(4)]
+                    self.recipes.append({"slot": s, "k": "plane", "a": [v], "kw": {"dt": "i"}})
+                    self.tensors[s] = MTensor(np.array(v, dtype=np.int64), [], [0])
+                elif kind == "transf":
+                    d_ = rng.choice([3, 4])
+                    m = [[rng.randint(-2, 2) + (3 if i == j else 0) for j in range(d_)] for i in range(d_)]
+                    self.recipes.append({"slot": s, "k": "transf", "a": [m], "kw": {"dt": "i"}})
+                    self.tensors[s] = MTensor(np.array(m, dtype=np.int64), [0], [1])
+                else:
+                    m = [[0] * 3 for _ in range(3)]
+                    for i in range(3):
+                        for j in range(i, 3):
+                            m[i][j] = m[j][i] = rng.randint(-3, 3)
+                    dual = kind == "dualconic"
+                    self.recipes.append({"slot": s, "k": "conic", "a": [m], "kw": {"dual": dual, "dt": "i"}})
+                    self.tensors[s] = MTensor(np.array(m, dtype=np.int64), [0, 1] if dual else [], [] if dual else [0, 1])
+                self.subclass.add(s)
         # second node objects of the same tensor (identity matters)
         for _ in range(rng.randint(1, 3)):
             of = rng.randrange(self.next_t)
             s = self.new_t()
             self.recipes.append({"slot": s, "k": "alias", "a": [of, "copy"]})
             self.tensors[s] = self.tensors[of]
+            if of in self.subclass:
+                self.subclass.add(s)
 
     def variant_of(self, t: int) -> int:
         """A pool tensor with the same shape and the same NUMBER of covariant/contravariant axes as t but (if the
@@ -393,7 +428,7 @@ class ProgGen:
             if c < 0.7:
                 n = rng.choice([1, 2, 3, 4, 5])
                 cov = rng.random() < 0.5
-                st = {"i": i, "c": client, "op": "eps", "n": n, "cov": cov}
+                st = {"i": i, "c": client, "op": "eps", "n": n, "cov": cov, "covas": rng.choice(["bool", "bool", "int", "npbool"])}
                 if n <= 4 and rng.random() < 0.5:
                     t = self.new_t()
                     st["to"] = t
@@ -465,7 +500,7 @@ class ProgGen:
                 for t in o[1:]:
                     if t not in mp:
                         mp[t] = self.variant_of(t) if self.tensors[t].arr.ndim <= 4 and not self.tensors[t].int8 \
-                            and not self.tensors[t].free else t
+                            and not self.tensors[t].free and t not in self.subclass else t
                 ops.append([o[0]] + [mp[t] for t in o[1:]])
             twin = MDiagram()
             ok = True
@@ -498,7 +533,7 @@ class ProgGen:
         if r < 0.46:
             a, b = rng.choice(self.tensor_cands(8)), rng.choice(self.tensor_cands(8))
             # rank-0 operands make `*` a scalar multiplication (is_numerical_scalar), not a diagram: not generated
-            if a != b and self.tensors[a].arr.ndim and self.tensors[b].arr.ndim:
+            if a != b and self.tensors[a].arr.ndim and self.tensors[b].arr.ndim and not ({a, b} & self.subclass):
                 kind = rng.choice(["mul", "mul", "tprod"])
                 if self.tensors[a].free or self.tensors[b].free:
                     kind = "mul"   # tensor_product is not implemented for collections
@@ -507,7 +542,7 @@ class ProgGen:
         if r < 0.50:
             a = rng.choice(self.tensor_cands(8))
             ra, na = self.tensors[a].arr.ndim, max(self.tensors[a].arr.shape, default=1)
-            if ra >= 1 and not self.tensors[a].free:
+            if ra >= 1 and not self.tensors[a].free and a not in self.subclass:
                 ks = [k for k in (1, 2, 3, 4) if na ** (k * ra) <= MAX_ELEMS and k * ra <= 12]
                 if ks:
                     return {"i": i, "c": client, "op": "pow", "a": a, "k": rng.choice(ks)}
@@ -515,6 +550,8 @@ class ProgGen:
             of = rng.choice(sorted(self.tensors))
             t = self.new_t()
             self.tensors[t] = self.tensors[of]
+            if of in self.subclass:
+                self.subclass.add(t)
             return {"i": i, "c": client, "op": "tcopy", "t": of, "to": t}
         # add_edge
         cands = list(dict.fromkeys(d.nodes[-4:] + self.tensor_cands(4)))
@@ -580,6 +617,15 @@ def model_tensors_from_recipes(recipes) -> dict[int, MTensor]:
             cov = [nf + i for i in rel]
             ts[r["slot"]] = MTensor(arr, cov, [i for i in range(nf, arr.ndim) if i not in cov],
                                     int8=NARROW_CAP.get(kw.get("dt"), 0), free=nf)
+        elif k == "point":
+            ts[r["slot"]] = MTensor(np.array(a[0], dtype=np.int64), [0], [])
+        elif k in ("line", "plane"):
+            ts[r["slot"]] = MTensor(np.array(a[0], dtype=np.int64), [], [0])
+        elif k == "transf":
+            ts[r["slot"]] = MTensor(np.array(a[0], dtype=np.int64), [0], [1])
+        elif k == "conic":
+            m = np.array(a[0], dtype=np.int64)
+            ts[r["slot"]] = MTensor(m, [0, 1] if kw.get("dual") else [], [] if kw.get("dual") else [0, 1])
         elif k == "eps":
             n, cov = a
             ts[r["slot"]] = MTensor(W.eps_ref(n).astype(np.int64), range(n) if cov else [], [] if cov else range(n), True)
@@ -870,7 +916,10 @@ class Exec:
             W.evict_caches(st["which"])
             return None
         if op == "eps":
-            fn = lambda: LeviCivitaTensor(st["n"], st["cov"])  # noqa: E731
+            flag = st["cov"]
+            how = st.get("covas", "bool")
+            flag = {"bool": flag, "int": int(flag), "npbool": np.bool_(flag)}[how]
+            fn = lambda: LeviCivitaTensor(st["n"], flag)  # noqa: E731
         elif op == "delta":
             fn = lambda: KroneckerDelta(st["n"], st["p"])  # noqa: E731
         elif op == "tcopy":
